@@ -115,6 +115,12 @@ Next ==
 
 Spec == Init /\ [][Next]_vars
 
+\* under weak fairness (the writer keeps running, the sink keeps answering) every write ends: with success, with
+\* a failure, or by a crash.  Interruptions are bounded by MaxFaults; a sink that answers Interrupted for ever
+\* keeps write_all retrying for ever, which is std's contract, not this library's.
+LiveSpec == Spec /\ WF_vars(Next)
+Termination == <>(result # "running" \/ crashed)
+
 \* ---- the protocol the property talks about (declarative) ----------------------------------------
 \* success => exactly the canonical bytes; a reported failure => failure, and only a prefix delivered
 SuccessMeansCanonical == result = "ok" => sink = Canonical
